@@ -155,6 +155,9 @@ def C13(tier):
                                       optionsA=dict(rule=rule, arithmetic='fixed', precision=p, **om),
                                       optionsB=dict(rule=rule, arithmetic='guarded', precision=p, guard=0, **om), ignore_msgs=False,
                                       budget=300 if quick else 1500, cfg='g0-vs-fixed p=%d' % p))
+    # a tally landing exactly on the rounded-up quota needs a coarse precision and a few more ballots
+    r['jobs'].append(djob('opts', 'wigm', {}, 3, 2, 2, 7, optionsA=dict(rule='wigm', arithmetic='fixed', precision=1),
+                          optionsB=dict(rule='wigm', arithmetic='guarded', precision=1, guard=0), budget=300 if quick else 1500, cfg='g0-vs-fixed p=1 N<=7', weight=6))
     # (c) quasi-exact == exact when the comparison statistics show no near-tolerance comparison
     for rule, om in (('wigm', {}), ('meek', {'omega': 2}), ('warren', {'omega': 2})):
         for (p, g) in (((4, 4), (2, 1)) if quick else ((4, 4), (6, 3), (9, 9), (2, 1))):
@@ -301,6 +304,9 @@ def C10(tier):
         for rule, opts in [('wigm-prf-batch', {}), ('cfer-batch', {}), ('mpls', {}), ('meek', FX3)]:
             jobs.append(djob('split', rule, opts, 4, 2, 2, 5, budget=1500))
         jobs.append(djob('split', 'wigm', grid.RAT, 3, 2, 2, 4, budget=1500))
+    # comparison statistics printed under guarded arithmetic: a zero-free universe (every line and every part exists in the file)
+    for rule, opts in [('wigm', grid.G44), ('meek', dict(grid.G44, omega=2)), ('warren', dict(grid.G44, omega=2))]:
+        jobs.append(djob('split', rule, opts, 3, 2, 2, 8 if quick else 10, nozero=True, lines=['1 2', '2 1', '3'], budget=300 if quick else 1500))
     tj = _layout_jobs(tier)
     return dict(jobs=jobs + tj, level_text=LEVEL_DIFF + '; plus token-mode layout variants of the reader (see C15)', assumptions=DIFF_ASSUME + TOKEN_ASSUME,
                 require_reach=['pair-compared', 'layout-compared'],
